@@ -41,6 +41,8 @@ LEAF_TYPES = {
     # name -> (parameter list [(suffix, type, precondition template)], builder expression over the parameters)
     "int": ([("i", "int", "-2**31 <= {0} < 2**31")], lambda p: p["i"]),
     "str": ([("s", "str", "len({0}) <= 2 and {0}.isascii()")], lambda p: p["s"]),
+    "str3": ([("s", "str", "len({0}) <= 3 and {0}.isascii()")], lambda p: p["s"]),
+    "ustr": ([("s", "str", "len({0}) <= 1")], lambda p: p["s"]),
     "bool": ([("b", "bool", None)], lambda p: p["b"]),
     "float": ([("f", "float", "{0} == {0} and -1e9 < {0} < 1e9")], lambda p: p["f"]),
     "list": ([("i", "int", "-2**31 <= {0} < 2**31")], lambda p: [p["i"], 1]),
@@ -184,6 +186,22 @@ def queries(tier):
     # T7: higher-order reference
     qs.append(_q("hist.T7.aa", "T7", [{"variants": A}, {"variants": A}]))
     qs.append(_q("hist.T7.ab", "T7", [{"variants": A}, {"variants": B}]))
+    if tier == "thorough":
+        # every leaf type x (edit of a callee, revert, entry-style switch + unrelated edits, restart); longer / non-ASCII strings
+        for lt in ["int", "str", "bool", "float", "list", "tuple", "dict", "none", "path", "str3", "ustr"]:
+            qs.append(_q("hist.T1.%s.ab" % lt, "T1", [{"variants": A}, {"variants": B}], {"G": lt}, timeout=900))
+            qs.append(_q("hist.T1.%s.aba.restart" % lt, "T1", [{"variants": A}, {"variants": B, "restart": True}, {"variants": A, "restart": True}], {"G": lt}, timeout=1500))
+            qs.append(_q("hist.T1.%s.ac.eval" % lt, "T1", [{"variants": A, "style": "eval"}, {"variants": C, "style": "call"}, {"variants": D, "style": "eval"}], {"G": lt}, timeout=1500))
+        for store in ("noop", "lru"):
+            for tn in ("T5", "T6", "T7"):
+                qs.append(_q("hist.%s.aa.%s" % (tn, store), tn, [{}, {}], store=store, timeout=900))
+        for tn, var in (("T5", "K1"), ("T5", "K2"), ("T6", "G2"), ("T7", "G")):
+            for lt in ("str", "list", "bool"):
+                qs.append(_q("hist.%s.%s.%s" % (tn, var, lt), tn, [{}, {"restart": True}], {var: lt}, timeout=1500))
+        qs.append(_q("hist.T5.aba", "T5", [{"variants": A}, {"variants": B}, {"variants": A}], timeout=1500))
+        qs.append(_q("hist.T6.m2.aba", "T6", [{}, {"variants": {"tq.m2": "b"}}, {"variants": {"tq.m2": "a"}, "restart": True}], timeout=1500))
+        qs.append(_q("hist.T7.aba", "T7", [{"variants": A}, {"variants": B}, {"variants": A}], timeout=1500))
+        qs.append(_q("hist.T4.aba.n", "T4", [dict(E, variants=A), dict(E, variants=B), dict(E, variants=A)], nargs=True, timeout=1800, fixed={"G": [0, 0, 0]}))
     return qs
 
 
